@@ -15,18 +15,24 @@ Part A  lowest common ancestor
   `lca_spec_unique`          the specification determines the answer
   `find_lca_set_only`        hence the answer depends on the set of lineages only (order, duplicates)
   `lca_deepest_if_no_disagreement`, `lca_first_disagreement`   the two halves of the prose statement
+  `lca_longest_agreed_path`, `lca_is_agreed`, `lca_several_roots`   find_lca = the longest agreed prefix, on
+                             arbitrary (ragged / empty / several-rooted / LIN / ICTV) lineage sets
+  `count_conservation`, `summarize_rollup`
   `pop_to_rank_spec`, `classify_spec`, `classify_majority_spec`, `majority_vote_is_first_max`,
   `gather_exact`, `count_lca_total`
 Part B  summarised counts
   `counts_eq`, `aggregate_table`, `aggregate_once`   every hash is credited to its LCA and to each
                              of its ancestors exactly once (the root only when it is the LCA itself)
 Part C  the database, over all histories of insert / downsample_scaled / JSON save+load
+  `index_command_builds_reachable`   the database `sourmash lca index` writes is reached by a history of inserts
   `history_invariant`        the tables represent the log of accepted insertions (also after a JSON
                              round trip followed by further insertions)
   `index_is_relation`        h ↦ idx is in the index  ⇔  signature idx was inserted and holds h
   `assignments_exact`, `identifiers_exact`, `reconstruct`, `len_counts_all`
   `summarize_end_to_end`, `summarize_reachable`, `linsOf_mem`   the property's last sentence as one theorem
                              about database code and lineage code together
+  `default_identifier`, `incompatible_signature_refused`, `json_parameters_roundtrip`   name / filename / md5 prefix;
+                             ksize and moltype checks; protein ksize scaling of the JSON form
   `json_roundtrip` (+ `json_assignments`, `json_identifiers`, `json_signatures`, `json_lineage_same_taxa`)
   `downsample_entry`, `downsample_commutes`, regression `downsample_keeps_threshold_hash` (D9, repaired)
   `signatures_named`, regression `empty_sketch_counted_and_yielded` (D11, repaired),
@@ -45,6 +51,8 @@ import SmVerif.Lemmas.LcaGather
 import SmVerif.Lemmas.LineagePop
 import SmVerif.Lemmas.LcaSummarize
 import SmVerif.Lemmas.LcaSql
+import SmVerif.Lemmas.LineageRollup
+import SmVerif.Model.LcaIndex
 
 namespace Sm.C18
 
@@ -118,6 +126,25 @@ theorem lca_first_disagreement (ls : List Lineage) (hne : ls ≠ []) (h0 : (lcaO
     simp only [List.nodup_cons, List.mem_cons, not_or] at hnd
     exact hnd.1.1
 
+/-- `find_lca` is the LONGEST path the lineages agree on: any path that is on the way to some lineage and that
+    no lineage leaves (`Agreed`) is a prefix of the reported one.  Holds for arbitrary lineage sets — ragged,
+    with empty lineages, with repeated ranks or the same name at different ranks (a taxon is a (rank, name)
+    pair), with LIN / ICTV rank lists (ranks are arbitrary labels). -/
+theorem lca_longest_agreed_path (ls : List Lineage) (hne : ls ≠ []) (q : Lineage)
+    (hq : Agreed (ls.map canon) q) : q <+: (lcaOf ls).1 :=
+  isLca_longest (find_lca_spec ls hne) hq
+
+/-- ... and it is itself agreed, so it is the maximum of the agreed paths -/
+theorem lca_is_agreed (ls : List Lineage) (hne : ls ≠ []) : Agreed (ls.map canon) (lcaOf ls).1 :=
+  (find_lca_spec ls hne).agreed
+
+/-- several roots: if two lineages already name different first taxa, the LCA is the root `()` and the reason
+    is the number of different first taxa (at least 2) -/
+theorem lca_several_roots (ls : List Lineage) (hne : ls ≠ []) {k₁ k₂ : Key} {t₁ t₂ : Lineage}
+    (h₁ : k₁ :: t₁ ∈ ls.map canon) (h₂ : k₂ :: t₂ ∈ ls.map canon) (hk : k₁ ≠ k₂) :
+    (lcaOf ls).1 = [] ∧ 2 ≤ (lcaOf ls).2 :=
+  isLca_roots (find_lca_spec ls hne) h₁ h₂ hk
+
 /-- an empty argument is refused (`ValueError`) -/
 theorem build_tree_empty_refused : buildTree [] = .error .value := rfl
 
@@ -184,6 +211,27 @@ theorem aggregate_once {asg : List (Nat × List Lineage)} {w : Option (List (Nat
     · have : thr ≤ x.2 := by omega
       simp [hc, ht, this]
   · by_cases ht : x.2 < thr <;> simp [hc, ht]
+
+/-- conservation: unweighted, the LCA counts add up to the number of hashes that have at least one lineage;
+    weighted, to their total weight — no hash is dropped or counted twice -/
+theorem count_conservation {asg : List (Nat × List Lineage)} {w : Option (List (Nat × Nat))}
+    {counts : List (Lineage × Nat)} (h : countLca asg w = .ok counts) :
+    (counts.map Prod.snd).sum = (asg.map (fun a => weightOf w a.1)).sum ∧
+      (w = none → (counts.map Prod.snd).sum = asg.length) := by
+  refine ⟨countLca_conservation_weighted h, ?_⟩
+  intro hw
+  subst hw
+  exact countLca_conservation h
+
+/-- the rollup of `summarize`: the count reported for a non-root lineage `p` is the count of the hashes whose
+    LCA is `p` itself (when it reaches the threshold) plus the counts reported for its children `p ++ [k]`
+    (`childKeys`: the different taxa that follow `p` in the LCAs that reach the threshold) -/
+theorem summarize_rollup (counts : List (Lineage × Nat)) (thr : Nat) (p : Lineage) (hp : p ≠ []) :
+    val (aggregate counts thr) p =
+      (((counts.filter (fun x => !decide (x.2 < thr))).filter (fun x => decide (x.1 = p))).map Prod.snd).sum +
+      ((childKeys (counts.filter (fun x => !decide (x.2 < thr))) p).map
+        (fun k => val (aggregate counts thr) (p ++ [k]))).sum :=
+  aggregate_rollup counts thr p hp
 
 /-- with threshold 0 nothing is filtered: each hash is credited to its LCA and every ancestor -/
 theorem aggregate_once_no_threshold {asg : List (Nat × List Lineage)} {w : Option (List (Nat × Nat))}
@@ -365,6 +413,84 @@ theorem history_invariant (ksize scaled moltype : Nat) (ops : List Op) :
       exact ih _ _ a b
   exact this ops _ _ (qrep_new ..) (lininv_new ..)
 
+theorem run_append (db : Db) (log : List Entry) (a b : List Op) :
+    run db log (a ++ b) = run (run db log a).1 (run db log a).2 b := by
+  induction a generalizing db log with
+  | nil => rfl
+  | cons op ops ih => simp only [List.cons_append, run]; exact ih _ _
+
+/-- `sourmash lca index` (Model/LcaIndex.lean: spreadsheet reader, identifier options, duplicate md5s,
+    --require-taxonomy, refusals): whatever the options and the spreadsheet, the database it builds is reached
+    by a history of `insert` calls from the empty database — so every theorem of this part (`index_is_relation`,
+    `assignments_exact`, `reconstruct`, `summarize_reachable`, …) applies to the databases the command writes -/
+theorem index_command_builds_reachable (o : LcaIndex.Opts) (sigs : List Sig) (rows : List (List String))
+    (r : LcaIndex.Result) (h : LcaIndex.lcaIndex o sigs rows = .ok r) :
+    ∃ ops, r.db = (run (Db.new o.ksize o.scaled o.moltype) [] ops).1 := by
+  have hfold : ∀ (asg : List (String × Lineage)) (sigs : List Sig) (st st' : LcaIndex.IdxSt) (log : List Entry),
+      sigs.foldlM (LcaIndex.indexSig o asg) st = .ok st' → ∃ ops, st'.db = (run st.db log ops).1 := by
+    intro asg sigs
+    induction sigs with
+    | nil =>
+      intro st st' log hh
+      simp only [List.foldlM_nil, pure, Except.pure, Except.ok.injEq] at hh
+      subst hh; exact ⟨[], rfl⟩
+    | cons sg rest ih =>
+      intro st st' log hh
+      simp only [List.foldlM_cons, bind, Except.bind] at hh
+      cases hs : LcaIndex.indexSig o asg st sg with
+      | error e => simp [hs] at hh
+      | ok st1 =>
+        simp only [hs] at hh
+        -- one step: nothing, or one insertion
+        have hstep : ∃ ops1, st1.db = (run st.db log ops1).1 := by
+          unfold LcaIndex.indexSig at hs
+          split at hs
+          · simp only [Except.ok.injEq] at hs; subst hs; exact ⟨[], rfl⟩
+          · split at hs
+            · simp only [Except.ok.injEq] at hs; subst hs; exact ⟨[], rfl⟩
+            · simp only at hs
+              split at hs
+              · split at hs
+                · split at hs
+                  · cases hs
+                  · simp only [Except.ok.injEq] at hs; subst hs; exact ⟨[], rfl⟩
+                · split at hs
+                  · cases hs
+                  · rename_i db' n hins
+                    simp only [Except.ok.injEq] at hs; subst hs
+                    refine ⟨[Op.insert sg (LcaIndex.splitIdent o.splitIdents o.keepVersions
+                      (if sg.name ≠ "" then sg.name else sg.filename)) []], ?_⟩
+                    simp only [run, stepDb, hins]
+              · split at hs
+                · cases hs
+                · rename_i lineage _ _ db' n hins
+                  simp only [Except.ok.injEq] at hs; subst hs
+                  refine ⟨[Op.insert sg (LcaIndex.splitIdent o.splitIdents o.keepVersions
+                    (if sg.name ≠ "" then sg.name else sg.filename)) lineage], ?_⟩
+                  simp only [run, stepDb, hins]
+        obtain ⟨ops1, h1⟩ := hstep
+        obtain ⟨ops2, h2⟩ := ih st1 st' (run st.db log ops1).2 hh
+        refine ⟨ops1 ++ ops2, ?_⟩
+        rw [run_append, h2, h1]
+  unfold LcaIndex.lcaIndex at h
+  split at h
+  · cases h
+  · split at h
+    · cases h
+    · rename_i asg nrows _
+      simp only at h
+      split at h
+      · cases h
+      · rename_i st hst
+        split at h
+        · cases h
+        · split at h
+          · cases h
+          · simp only [Except.ok.injEq] at h
+            subst h
+            obtain ⟨ops, hops⟩ := hfold asg sigs _ st [] hst
+            exact ⟨ops, hops⟩
+
 /-- the index is the relation "signature `idx` was inserted and holds `h` at the database's scaled":
     nothing is missing, nothing is invented -/
 theorem index_is_relation {db : Db} {log : List Entry} (hq : QRep db log) (h idx : Nat) :
@@ -402,6 +528,27 @@ theorem kept_eq_filter {sig : Sig} {S : Nat} {kept : List Nat} (h : sig.downTo S
       · simp [h3] at h
       · simp only [h3, if_false, Except.ok.injEq] at h
         rw [← h, hrt]
+
+/-- the default identifier of an inserted signature (`ident=None`): its name; without a name its filename;
+    without either the first 8 characters of its md5sum (md5 itself is supplied by the harness, not modelled) -/
+theorem default_identifier (sig : Sig) :
+    (sig.name ≠ "" → sig.str = sig.name) ∧
+    (sig.name = "" → sig.filename ≠ "" → sig.str = sig.filename) ∧
+    (sig.name = "" → sig.filename = "" → sig.str = String.ofList (sig.md5.toList.take 8)) := by
+  unfold Sig.str
+  refine ⟨fun h => by simp [h], fun h1 h2 => by simp [h1, h2], fun h1 h2 => by simp [h1, h2]⟩
+
+/-- a signature of another k-mer size or molecule type (DNA / protein / dayhoff / hp) is refused and leaves
+    the database unchanged -/
+theorem incompatible_signature_refused (db : Db) (sig : Sig) (ident : String) (lineage : Lineage)
+    (h : sig.ksize ≠ db.ksize ∨ sig.moltype ≠ db.moltype) :
+    db.insert sig ident lineage = (db, .error .value) := by
+  unfold Db.insert
+  by_cases hk : sig.ksize ≠ db.ksize
+  · simp [hk]
+  · rcases h with h | h
+    · exact absurd h hk
+    · simp [hk, h]
 
 /-- `get_lineage_assignments(h)`: exactly the lineages of the inserted signatures that hold `h` and
     have a lineage — in insertion order, once per signature (identical lineages of several
@@ -609,6 +756,17 @@ theorem json_signatures {db : Db} {log : List Entry} (hq : QRep db log) :
   simp only [Db.len, Db.jsonRoundTrip]
   rw [hq.identToIdx, vals_identIdx, nextAfter_range, hq.nextIndex]
 
+/-- protein / dayhoff / hp databases store `ksize * 3` in the JSON file and divide by 3 on load: the k-mer
+    size, the moltype and the scaled value of the loaded database are those of the saved one -/
+theorem json_parameters_roundtrip (db : Db) :
+    db.jsonRoundTrip.ksize = db.ksize ∧ db.jsonRoundTrip.moltype = db.moltype ∧
+      db.jsonRoundTrip.scaled = db.scaled := by
+  refine ⟨?_, rfl, rfl⟩
+  simp only [Db.jsonRoundTrip, jsonLoadKsize, jsonSaveKsize]
+  by_cases h : db.moltype ≠ 0
+  · rw [if_pos h, if_pos h]; exact Nat.mul_div_cancel _ (by decide)
+  · rw [if_neg h, if_neg h]
+
 /-- a lineage that lists the ranks of `taxlist()` in order names the same taxa after save/load
     (what changes is only the padding with empty names), so every LCA and every summary is unchanged -/
 theorem json_lineage_same_taxa {l : Lineage} (h : Positional l) : canon (jsonLineage l) = canon l :=
@@ -676,20 +834,27 @@ theorem downsample_keeps_threshold_hash :
     subst hd
     simp [Db.idxsOf, Dict.get?]
 
-/-! ### the SQLite twin: `downsample_scaled` changes no answer (finding) -/
+/-! ### the SQLite twin and `downsample_scaled` (finding C18.3)
 
-/-- on the SQLite form `downsample_scaled(S)` only sets the attribute: every lineage / identifier /
-    signature answer is what it was, so hashes above `max_hash(S)` keep being reported -/
-theorem sql_downsample_changes_no_answer {s s' : SqlDb} {S : Nat} (h : s.downsampleScaled S = .ok s') :
-    s'.scaled = S ∧ (∀ x m, s'.getLineageAssignments x m = s.getLineageAssignments x m) ∧
-      (∀ x, s'.getIdentifiers x = s.getIdentifiers x) ∧ s'.signatures = s.signatures ∧
-      s'.hashvals = s.hashvals := by
-  unfold SqlDb.downsampleScaled at h
-  by_cases h1 : S < s.scaled
-  · simp [h1] at h
-  · simp only [h1, if_false, Except.ok.injEq] at h
-    subst h
-    exact ⟨rfl, fun _ _ => rfl, fun _ => rfl, rfl, rfl⟩
+   Whether the queries of `LCA_SqliteDatabase` honour `self.scaled` is read from the source by the translator
+   (`Gen.sqlDownHonoured`); both behaviours are modelled, each theorem is about one of them. -/
+
+/-- as the code stands (C18.3): `downsample_scaled(S)` only sets the attribute — every hash keeps the sketch
+    ids it had, so hashes above `max_hash(S)` keep being reported -/
+theorem sql_downsample_changes_no_answer (hflag : Gen.sqlDownHonoured = false) {s s' : SqlDb} {S : Nat}
+    (h : s.downsampleScaled S = .ok s') (x : Nat) : s'.idxsOf x = s.idxsOf x := by
+  unfold SqlDb.idxsOf
+  rw [hflag]
+  exact sql_downsample_unhonoured h x
+
+/-- with the proposed patch (`patches/C18/C18.3-sql-downsample-queries.diff`): after `downsample_scaled(S)`
+    a hash is reported iff it is at most `max_hash(S)`, and then with the sketch ids that hold it -/
+theorem sql_downsample_honoured (hflag : Gen.sqlDownHonoured = true) {s s' : SqlDb} {S : Nat}
+    (h : s.downsampleScaled S = .ok s') (x : Nat) :
+    s'.scaled = S ∧ s'.idxsOf x = if x ≤ mhR S then s.idxsOfAll x else [] := by
+  unfold SqlDb.idxsOf
+  rw [hflag]
+  exact sql_downsample_honoured_idxs h x
 
 /-- every inserted signature is rebuilt exactly once: `signatures()` has as many items as `len(db)` -/
 theorem signatures_count {db : Db} {log : List Entry} (hq : QRep db log) : db.sketches.length = log.length :=
@@ -699,7 +864,7 @@ theorem signatures_count {db : Db} {log : List Entry} (hq : QRep db log) : db.sk
     signature, including those that hold no hash at the database's scaled: `len` agrees with the source -/
 theorem sql_keeps_every_signature {db : Db} {log : List Entry} (hq : QRep db log) {s : SqlDb}
     (h : db.toSql = .ok s) : s.len = db.len := by
-  unfold Db.toSql at h
+  unfold Db.toSql Db.toSqlWith at h
   rw [signatures_named hq] at h
   simp only at h
   split at h
@@ -724,11 +889,22 @@ theorem sql_keeps_every_signature {db : Db} {log : List Entry} (hq : QRep db log
 /-- `get_lineage_assignments` on the SQLite form: exactly the lineages the in-memory form reports, each as the
     taxonomy table returns it (`sqlKeep`: names by position, trailing empty names stripped — the same taxa by
     `sql_lineage_same_taxa`), up to the order of the answer (row order, which the protocol canonicalises) -/
-theorem sql_equiv_partial {db : Db} {log : List Entry} (hq : QRep db log) (hok : SqlOk db log)
-    {s : SqlDb} (h : db.toSql = .ok s) (x : Nat) :
+theorem sql_equiv_partial (hflag : Gen.sqlStoresIdents = false) {db : Db} {log : List Entry} (hq : QRep db log)
+    (hok : SqlOk db log) {s : SqlDb} (h : db.toSql = .ok s) (x : Nat) :
     ∃ ls ls', db.getLineageAssignments x = .ok ls ∧ s.getLineageAssignments x = .ok ls' ∧
-      ls'.Perm (ls.filterMap sqlKeep) :=
-  sql_assignments_perm hq hok h x
+      ls'.Perm (ls.filterMap sqlKeep) := by
+  have h' : db.toSqlWith false = .ok s := by rw [← hflag]; exact h
+  exact sql_assignments_perm hq hok.bounded (toSql_built_names hq hok h') x
+
+/-- with the proposed patch (`patches/C18/C18.4-C18.5-sql-store-identifiers.diff`: `save_to_sql` records the
+    identifiers, `_build_index` uses them) the same holds for EVERY database — no hypothesis on names or
+    identifiers, only that the stored hashes respect the sketch threshold -/
+theorem sql_equiv_stored (hflag : Gen.sqlStoresIdents = true) {db : Db} {log : List Entry} (hq : QRep db log)
+    (hb : ∀ e ∈ log, ∀ h ∈ e.kept, h ≤ mhR db.scaled) {s : SqlDb} (h : db.toSql = .ok s) (x : Nat) :
+    ∃ ls ls', db.getLineageAssignments x = .ok ls ∧ s.getLineageAssignments x = .ok ls' ∧
+      ls'.Perm (ls.filterMap sqlKeep) := by
+  have h' : db.toSqlWith true = .ok s := by rw [← hflag]; exact h
+  exact sql_assignments_perm hq hb (toSql_built_idents hq h') x
 
 /-- a lineage along `taxlist()` names the same taxa after its passage through the taxonomy table -/
 theorem sql_lineage_same_taxa {l : Lineage} (h : Positional l) : canon (sqlLin l) = canon l :=
@@ -739,13 +915,14 @@ theorem sql_lineage_same_taxa {l : Lineage} (h : Positional l) : canon (sqlLin l
 theorem sql_signatures_equiv {db : Db} {log : List Entry} (hq : QRep db log) {s : SqlDb} (h : db.toSql = .ok s) :
     ∃ sigs, db.signatures = .ok sigs ∧
       s.signatures.map (fun r => (r.2.1, r.2.2)) = sigs.map (fun g => (g.2.1, g.2.2)) :=
-  sql_signatures_eq hq h
+  sql_signatures_eq hq (toSqlWith_rows hq h)
 
-/-- `hashvals` of the SQLite form: the same set of hash values (64-bit values) -/
-theorem sql_hashvals_equiv {db : Db} {log : List Entry} (hq : QRep db log) (hok : SqlOk db log)
+/-- `hashvals` of the SQLite form: the same set of hash values (64-bit values within the sketch threshold) -/
+theorem sql_hashvals_equiv {db : Db} {log : List Entry} (hq : QRep db log)
+    (hb : ∀ e ∈ log, ∀ h ∈ e.kept, h ≤ mhR db.scaled)
     (hu : ∀ e ∈ log, ∀ h ∈ e.kept, h < 2 ^ 64) {s : SqlDb} (h : db.toSql = .ok s) (x : Nat) :
     x ∈ s.hashvals ↔ x ∈ db.hashvals :=
-  sql_hashvals_mem hq hok hu h x
+  sql_hashvals_mem hq hb hu (toSqlWith_rows hq h) x
 
 /-- the two shapes of names for which `SqlOk.derivable` holds by construction: a name without a space
     inserted under itself, and `"<ident> <anything>"` inserted under `<ident>` -/
@@ -756,15 +933,17 @@ theorem first_word_shapes :
     (∀ a b : List Char, '.' ∉ a → dotPrefix (String.ofList (a ++ '.' :: b)) = String.ofList a) :=
   ⟨fun _ h => firstWord_of_no_space h, firstWord_ident_space, fun _ h => dotPrefix_of_no_dot h, dotPrefix_dot⟩
 
-/-- finding C18.4, kernel-checked on the model of the code as it stands: a signature named
-    "GCF_1.1 E coli" inserted under its default identifier (the full name) has its lineage in the in-memory
-    form and none in the SQLite form — `_build_index` looks under "GCF_1.1", then under "GCF_1" -/
+/-- finding C18.4, kernel-checked: a signature named "GCF_1.1 E coli" inserted under its default identifier (the
+    full name) has its lineage in the in-memory form and none in the SQLite form whose `_build_index` guesses
+    identifiers from names (it looks under "GCF_1.1", then under "GCF_1"); with recorded identifiers it is there -/
 theorem sql_lineage_lost_counterexample :
     let sig : Sig := { name := "GCF_1.1 E coli", filename := "", ksize := 21, moltype := 0, num := 0, scaled := 10, hashes := [5] }
     let db := (Db.insert (Db.new 21 10 0) sig "" [(0, 1), (1, 2)]).1
     firstWord sig.name = "GCF_1.1" ∧ dotPrefix sig.name = "GCF_1" ∧
     (db.getLineageAssignments 5).toOption = some [[(0, 1), (1, 2)]] ∧
-      (db.toSql.toOption.map (fun s => (s.getLineageAssignments 5).toOption)) = some (some []) := by decide
+      ((db.toSqlWith false).toOption.map (fun s => (s.getLineageAssignments 5).toOption)) = some (some []) ∧
+      ((db.toSqlWith true).toOption.map (fun s => (s.getLineageAssignments 5).toOption)) =
+        some (some [[(0, 1), (1, 2)]]) := by decide
 
 /-- C18.6 (repaired): a hash nobody holds has no identifiers on the SQLite form either -/
 theorem sql_identifiers_absent_hash (s : SqlDb) (h : Nat) (hh : s.idxsOf h = []) :
@@ -807,7 +986,7 @@ example :
     let sig : Sig := { name := "GCF_1.1 E coli", filename := "", ksize := 21, moltype := 0, num := 0, scaled := 10, hashes := [5] }
     let db := (Db.insert (Db.new 21 10 0) sig "GCF_1.1" [(0, 1), (1, 0), (2, 3), (3, 0)]).1
     (db.getLineageAssignments 5).toOption = some [[(0, 1), (1, 0), (2, 3), (3, 0)]] ∧
-      (db.toSql.toOption.map (fun s => (s.getLineageAssignments 5).toOption)) =
+      ((db.toSqlWith false).toOption.map (fun s => (s.getLineageAssignments 5).toOption)) =
         some (some [[(0, 1), (1, 0), (2, 3)]]) := by decide
 
 /-- majority vote: two LCAs with the same count — the one counted first wins; at threshold 2 a count of 2 is
@@ -829,7 +1008,8 @@ example :
   have e4 : insThreshold 1 = U64MAX := by decide +kernel
   simp [run, stepDb, stepLog, Db.insert, Db.new, Sig.downTo, Db.getIdentIndex, Db.getLineageId, Sig.str,
     Db.idxsOf, Db.len, addHashes, Dict.get?, Dict.set, Dict.contains, Dict.addSet, entryOf, Db.getLineageAssignments,
-    Db.jsonRoundTrip, jsonLineage, nRanks, Gen.lcaTaxlist, Dict.nextAfter, Dict.vals, List.range, List.range.loop,
+    Db.jsonRoundTrip, jsonLineage, jsonLoadKsize, jsonSaveKsize, nRanks, Gen.lcaTaxlist, Dict.nextAfter, Dict.vals,
+    List.range, List.range.loop,
     List.foldlM, bind, Except.bind, pure, Except.pure]
 
 end Sm.C18
